@@ -393,6 +393,18 @@ fn main() {
             let i = g.below(len as u64) as usize;
             mat[i] = -0.5;
         }
+        if v.is_off() && g.chance(1, 3) {
+            // the offset variants accept negative (diagonal) entries: shift them below zero, incl. constant negative tables
+            let d = g.range(1, 24) as f64 / 4.0;
+            if v.is_diag() {
+                mat.iter_mut().for_each(|x| *x -= d);
+            } else {
+                let tn = 1usize << nv;
+                for i in 0..tn {
+                    mat[i * tn + i] -= d;
+                }
+            }
+        }
         run_case(v, &mat, &shuffled_vars(&mut g, nv), k % 4 == 0);
     }
     // 4. get_power_of_two / get_mat_var_size are private; they are observed through case set 1.
